@@ -8,6 +8,8 @@ ASSUMPTIONS = [
     "they are compared on concrete representatives in an untraced dry run at harness import",
     "interference: a solver-chosen operation (new codecs, composite codecs, a subclass, an enclosing dataclass, a one-shot call) "
     "runs between two evaluations; results must not change",
+    "one-shot decode()/encode(): a solver-chosen sequence of 3 calls over 8 shapes (incl. unions that compare equal but list their "
+    "members in a different order) runs untraced on concrete data; every call is compared with a codec object built for that shape",
     "types enumerated: leaf grammar + dataclass variants with dialect/config (vf/checks/c15.py)",
 ]
 PRELUDE = COMMON_PRELUDE + '''
@@ -37,6 +39,7 @@ def harnesses(tier, seed):
     for j, t in enumerate(TYPES):
         s = Schema("T%02d" % j, t, PRELUDE)
         hs.append(gen.custom_harness("C15", "c15", s, "all"))
+    hs.append(gen.custom_harness("C15", "c15", Schema("oneshot", "int", ""), "oneshot"))
     return hs
 
 
